@@ -17,14 +17,14 @@ Local Open Scope string_scope.
 (* a known escape (backslash followed by one of: backslash, double quote, n, r, t) contributes the
    character [escape_value] gives for it and consumes two bytes *)
 Theorem C16_str_escape :
-  forall f c v r pos tmp start endpos, escape_value c = Some v ->
-  lex_str (S f) (String "\" (String c r)) pos tmp start endpos =
-  lex_str f r (pos + 2) (tmp ++ String v "") start endpos.
+  forall curly f c v r pos tmp start endpos, escape_value c = Some v ->
+  lex_str curly (S f) (String "\" (String c r)) pos tmp start endpos =
+  lex_str curly f r (pos + 2) (tmp ++ String v "") start endpos.
 Proof. exact lex_str_escape. Qed.
 Check C16_str_escape :
-  forall f c v r pos tmp start endpos, escape_value c = Some v ->
-  lex_str (S f) (String "\" (String c r)) pos tmp start endpos =
-  lex_str f r (pos + 2) (tmp ++ String v "") start endpos.
+  forall curly f c v r pos tmp start endpos, escape_value c = Some v ->
+  lex_str curly (S f) (String "\" (String c r)) pos tmp start endpos =
+  lex_str curly f r (pos + 2) (tmp ++ String v "") start endpos.
 
 (* the table of escapes, spelled out *)
 Theorem C16_str_escape_table :
@@ -44,25 +44,53 @@ Check C16_str_escape_table :
 (* any other character after a backslash - whole, of any width - is the error "unknown escape" whose
    span is the backslash and that character *)
 Theorem C16_str_unknown_escape :
-  forall f r c2 r2 pos tmp start endpos,
+  forall curly f r c2 r2 pos tmp start endpos,
   take_char r = Some (c2, r2) -> (forall c, escape_value c <> None -> c2 <> String c "") ->
-  lex_str (S f) (String "\" r) pos tmp start endpos =
+  lex_str curly (S f) (String "\" r) pos tmp start endpos =
   (TErr PEscape pos (S pos + String.length c2), r2, S pos + String.length c2).
 Proof. exact lex_str_bad_escape. Qed.
 Check C16_str_unknown_escape :
-  forall f r c2 r2 pos tmp start endpos,
+  forall curly f r c2 r2 pos tmp start endpos,
   take_char r = Some (c2, r2) -> (forall c, escape_value c <> None -> c2 <> String c "") ->
-  lex_str (S f) (String "\" r) pos tmp start endpos =
+  lex_str curly (S f) (String "\" r) pos tmp start endpos =
   (TErr PEscape pos (S pos + String.length c2), r2, S pos + String.length c2).
 
-(* READING A WRITTEN STRING LITERAL.  Opening quote (straight or curly), a body of ordinary bytes,
-   three-byte characters led by E2 other than the closing curly quote, and known escapes, closing
-   quote (straight or curly): the token is the string made of the item values when whitespace or
-   the end follows, the error "expect whitespace" otherwise; the state afterwards is just past the
-   closing quote.  Any lexer state, any continuation *)
+(* THE QUOTE RULE.  [curly] says which quote opened the literal: false - the straight quote,
+   true - the left curly quote (U+201C).  A straight quote closes either kind; the right curly quote
+   (U+201D) closes a literal only if a left curly quote opened it *)
+Theorem C16_str_quotes_spec :
+  (forall q, is_opener false q <-> q = dq) /\ (forall q, is_opener true q <-> q = ldq) /\
+  (forall q, is_closer false q <-> q = dq) /\ (forall q, is_closer true q <-> (q = dq \/ q = rdq)).
+Proof. exact quotes_spec. Qed.
+Check C16_str_quotes_spec :
+  (forall q, is_opener false q <-> q = dq) /\ (forall q, is_opener true q <-> q = ldq) /\
+  (forall q, is_closer false q <-> q = dq) /\ (forall q, is_closer true q <-> (q = dq \/ q = rdq)).
+
+(* ... and accordingly the right curly quote, as an item of a body ([rdq_item]: its text and its value are
+   the three bytes of U+201D), is an ordinary character of a straight-opened literal and is not
+   allowed in the body of a curly-opened one; every other item is allowed in both alike *)
+Theorem C16_str_rdq_item_spec :
+  sitem_text rdq_item = rdq /\ sitem_value rdq_item = rdq /\
+  sitem_ok false rdq_item = true /\ sitem_ok true rdq_item = false /\
+  (forall i, sitem_ok true i = true -> sitem_ok false i = true) /\
+  (forall i, sitem_ok false i = true -> i <> rdq_item -> sitem_ok true i = true).
+Proof. exact rdq_item_spec. Qed.
+Check C16_str_rdq_item_spec :
+  sitem_text rdq_item = rdq /\ sitem_value rdq_item = rdq /\
+  sitem_ok false rdq_item = true /\ sitem_ok true rdq_item = false /\
+  (forall i, sitem_ok true i = true -> sitem_ok false i = true) /\
+  (forall i, sitem_ok false i = true -> i <> rdq_item -> sitem_ok true i = true).
+
+(* READING A WRITTEN STRING LITERAL.  Opening quote (straight: curly = false, left curly: curly = true),
+   a body of ordinary bytes, three-byte characters led by E2 - any of them in a straight-opened
+   literal, so the right curly quote is part of the value there; any but the right curly quote in a
+   curly-opened one - and known escapes, closing quote (straight, or right curly if curly = true):
+   the token is the string made of the item values when whitespace or the end follows, the error
+   "expect whitespace" otherwise; the state afterwards is just past the closing quote.  Any lexer
+   state, any continuation *)
 Theorem C16_str_literal :
-  forall l qo items qc rest,
-  is_opener qo -> is_closer qc -> forallb sitem_ok items = true ->
+  forall l curly qo items qc rest,
+  is_opener curly qo -> is_closer curly qc -> forallb (sitem_ok curly) items = true ->
   lrest l = qo ++ sitems_text items ++ qc ++ rest ->
   let p' := lpos l + String.length qo + String.length (sitems_text items) + String.length qc in
   lex_next l = (if next_is_ws_or_end rest then TLit (CStr (sitems_value items))
@@ -70,27 +98,28 @@ Theorem C16_str_literal :
                 mklex rest p' (lpos l) (llen l)).
 Proof. exact lex_next_string. Qed.
 Check C16_str_literal :
-  forall l qo items qc rest,
-  is_opener qo -> is_closer qc -> forallb sitem_ok items = true ->
+  forall l curly qo items qc rest,
+  is_opener curly qo -> is_closer curly qc -> forallb (sitem_ok curly) items = true ->
   lrest l = qo ++ sitems_text items ++ qc ++ rest ->
   let p' := lpos l + String.length qo + String.length (sitems_text items) + String.length qc in
   lex_next l = (if next_is_ws_or_end rest then TLit (CStr (sitems_value items))
                 else TErr PExpectWs (lpos l) p',
                 mklex rest p' (lpos l) (llen l)).
 
-(* A LITERAL WITHOUT ESCAPES DENOTES ITS TEXT: every valid UTF-8 body without backslash, straight
-   quote and closing curly quote, between any opening and closing quote, in any lexer state *)
+(* A LITERAL WITHOUT ESCAPES DENOTES ITS TEXT: every valid UTF-8 body without backslash and straight
+   quote - and, only if the literal is curly-opened, without right curly quote ([plain_text curly]) -
+   between an opening quote and a matching closing quote, in any lexer state *)
 Theorem C16_str_plain_literal :
-  forall l qo s qc rest,
-  is_opener qo -> is_closer qc -> valid_utf8 s = true -> plain_text s = true ->
+  forall l curly qo s qc rest,
+  is_opener curly qo -> is_closer curly qc -> valid_utf8 s = true -> plain_text curly s = true ->
   lrest l = qo ++ s ++ qc ++ rest ->
   let p' := lpos l + String.length qo + String.length s + String.length qc in
   lex_next l = (if next_is_ws_or_end rest then TLit (CStr s) else TErr PExpectWs (lpos l) p',
                 mklex rest p' (lpos l) (llen l)).
 Proof. exact lex_next_plain_string. Qed.
 Check C16_str_plain_literal :
-  forall l qo s qc rest,
-  is_opener qo -> is_closer qc -> valid_utf8 s = true -> plain_text s = true ->
+  forall l curly qo s qc rest,
+  is_opener curly qo -> is_closer curly qc -> valid_utf8 s = true -> plain_text curly s = true ->
   lrest l = qo ++ s ++ qc ++ rest ->
   let p' := lpos l + String.length qo + String.length s + String.length qc in
   lex_next l = (if next_is_ws_or_end rest then TLit (CStr s) else TErr PExpectWs (lpos l) p',
@@ -98,23 +127,98 @@ Check C16_str_plain_literal :
 
 (* ... as a whole text *)
 Theorem C16_str_plain_literal_string :
-  forall s, valid_utf8 s = true -> plain_text s = true ->
+  forall s, valid_utf8 s = true -> plain_text false s = true ->
   let txt := dq ++ s ++ dq in
   lex_string txt = [(TLit (CStr s), 0, String.length txt); (TEnd, String.length txt, String.length txt)].
 Proof. exact lex_string_plain_string. Qed.
 Check C16_str_plain_literal_string :
-  forall s, valid_utf8 s = true -> plain_text s = true ->
+  forall s, valid_utf8 s = true -> plain_text false s = true ->
   let txt := dq ++ s ++ dq in
   lex_string txt = [(TLit (CStr s), 0, String.length txt); (TEnd, String.length txt, String.length txt)].
 
-(* such a body is a written body in the sense of C16_str_literal (so escapes can be mixed in freely) *)
+(* for a straight-opened literal [plain_text] is just: no backslash, no straight quote; a body that is
+   plain for a curly-opened literal is plain for a straight-opened one *)
+Theorem C16_str_plain_text_straight :
+  (forall s, plain_text false s = no_backslash_no_quote s) /\
+  (forall s, plain_text true s = true -> plain_text false s = true).
+Proof. exact (conj plain_text_straight plain_text_curly_straight). Qed.
+Check C16_str_plain_text_straight :
+  (forall s, plain_text false s = no_backslash_no_quote s) /\
+  (forall s, plain_text true s = true -> plain_text false s = true).
+
+(* [no_backslash_no_quote], spelled out on the bytes of the text *)
+Theorem C16_str_no_backslash_no_quote_spec :
+  forall s, no_backslash_no_quote s = true <->
+  (forall i c, String.get i s = Some c -> c <> "\"%char /\ c <> """"%char).
+Proof. exact no_backslash_no_quote_spec. Qed.
+Check C16_str_no_backslash_no_quote_spec :
+  forall s, no_backslash_no_quote s = true <->
+  (forall i c, String.get i s = Some c -> c <> "\"%char /\ c <> """"%char).
+
+(* STRAIGHT-QUOTED TEXT READS BACK VERBATIM (the lexer side of print/read for the text the printer writes
+   verbatim, non-ASCII included): every valid UTF-8 string without backslash and without straight
+   quote - with any number of curly quotes of either kind - between straight quotes is one
+   literal whose value is that string *)
+Theorem C16_str_straight_literal_string :
+  forall s, valid_utf8 s = true -> no_backslash_no_quote s = true ->
+  let txt := dq ++ s ++ dq in
+  lex_string txt = [(TLit (CStr s), 0, String.length txt); (TEnd, String.length txt, String.length txt)].
+Proof. exact lex_string_straight_string. Qed.
+Check C16_str_straight_literal_string :
+  forall s, valid_utf8 s = true -> no_backslash_no_quote s = true ->
+  let txt := dq ++ s ++ dq in
+  lex_string txt = [(TLit (CStr s), 0, String.length txt); (TEnd, String.length txt, String.length txt)].
+
+(* ... in any lexer state and with any continuation *)
+Theorem C16_str_straight_literal :
+  forall l s rest, valid_utf8 s = true -> no_backslash_no_quote s = true ->
+  lrest l = dq ++ s ++ dq ++ rest ->
+  let p' := lpos l + String.length s + 2 in
+  lex_next l = (if next_is_ws_or_end rest then TLit (CStr s) else TErr PExpectWs (lpos l) p',
+                mklex rest p' (lpos l) (llen l)).
+Proof. exact lex_next_straight_string. Qed.
+Check C16_str_straight_literal :
+  forall l s rest, valid_utf8 s = true -> no_backslash_no_quote s = true ->
+  lrest l = dq ++ s ++ dq ++ rest ->
+  let p' := lpos l + String.length s + 2 in
+  lex_next l = (if next_is_ws_or_end rest then TLit (CStr s) else TErr PExpectWs (lpos l) p',
+                mklex rest p' (lpos l) (llen l)).
+
+(* ... in particular with a curly quote (right or left) anywhere inside: it is part of the value *)
+Theorem C16_str_straight_curly_inside :
+  forall a q b, valid_utf8 a = true -> valid_utf8 b = true ->
+  no_backslash_no_quote a = true -> no_backslash_no_quote b = true -> q = rdq \/ q = ldq ->
+  let s := a ++ q ++ b in
+  let txt := dq ++ s ++ dq in
+  lex_string txt = [(TLit (CStr s), 0, String.length txt); (TEnd, String.length txt, String.length txt)].
+Proof. exact lex_string_straight_curly_inside. Qed.
+Check C16_str_straight_curly_inside :
+  forall a q b, valid_utf8 a = true -> valid_utf8 b = true ->
+  no_backslash_no_quote a = true -> no_backslash_no_quote b = true -> q = rdq \/ q = ldq ->
+  let s := a ++ q ++ b in
+  let txt := dq ++ s ++ dq in
+  lex_string txt = [(TLit (CStr s), 0, String.length txt); (TEnd, String.length txt, String.length txt)].
+
+(* a right curly quote does not close a straight-opened literal: with nothing else after it the string is
+   unterminated *)
+Theorem C16_str_straight_curly_close_unterminated :
+  forall s, valid_utf8 s = true -> no_backslash_no_quote s = true ->
+  let txt := dq ++ s ++ rdq in
+  lex_string txt = [(TErr PUntermStr (String.length txt) (String.length txt), 0, String.length txt)].
+Proof. exact lex_string_straight_curly_close. Qed.
+Check C16_str_straight_curly_close_unterminated :
+  forall s, valid_utf8 s = true -> no_backslash_no_quote s = true ->
+  let txt := dq ++ s ++ rdq in
+  lex_string txt = [(TErr PUntermStr (String.length txt) (String.length txt), 0, String.length txt)].
+
+(* a body without escapes is a written body in the sense of C16_str_literal (so escapes can be mixed in freely) *)
 Theorem C16_str_plain_items :
-  forall s, valid_utf8 s = true -> plain_text s = true ->
-  forallb sitem_ok (text_items s) = true /\ sitems_text (text_items s) = s /\ sitems_value (text_items s) = s.
+  forall curly s, valid_utf8 s = true -> plain_text curly s = true ->
+  forallb (sitem_ok curly) (text_items s) = true /\ sitems_text (text_items s) = s /\ sitems_value (text_items s) = s.
 Proof. exact text_items_ok. Qed.
 Check C16_str_plain_items :
-  forall s, valid_utf8 s = true -> plain_text s = true ->
-  forallb sitem_ok (text_items s) = true /\ sitems_text (text_items s) = s /\ sitems_value (text_items s) = s.
+  forall curly s, valid_utf8 s = true -> plain_text curly s = true ->
+  forallb (sitem_ok curly) (text_items s) = true /\ sitems_text (text_items s) = s /\ sitems_value (text_items s) = s.
 
 (* PRINT/READ ROUND TRIP, whole text: every string the printer renders reads back as itself *)
 Theorem C16_print_read_str :
@@ -171,78 +275,80 @@ Check C16_print_read_str_then :
 
 (* the body the printer writes is a written body in the above sense, with the string as its value *)
 Theorem C16_print_str_items :
-  forall s b, fmt_str_body s = Some b ->
-  forallb sitem_ok (print_items s) = true /\ sitems_text (print_items s) = b /\
+  forall s b, fmt_str_body s = Some b -> forall curly,
+  forallb (sitem_ok curly) (print_items s) = true /\ sitems_text (print_items s) = b /\
   sitems_value (print_items s) = s.
 Proof. exact fmt_str_body_items. Qed.
 Check C16_print_str_items :
-  forall s b, fmt_str_body s = Some b ->
-  forallb sitem_ok (print_items s) = true /\ sitems_text (print_items s) = b /\
+  forall s b, fmt_str_body s = Some b -> forall curly,
+  forallb (sitem_ok curly) (print_items s) = true /\ sitems_text (print_items s) = b /\
   sitems_value (print_items s) = s.
 
 (* no closing quote: "unterminated string" at the end of the text *)
 Theorem C16_str_unterminated :
-  forall l qo items,
-  is_opener qo -> forallb sitem_ok items = true -> lrest l = qo ++ sitems_text items ->
+  forall l curly qo items,
+  is_opener curly qo -> forallb (sitem_ok curly) items = true -> lrest l = qo ++ sitems_text items ->
   let p' := lpos l + String.length qo + String.length (sitems_text items) in
   lex_next l = (TErr PUntermStr p' (llen l), mklex "" p' (lpos l) (llen l)).
 Proof. exact lex_next_string_unterminated. Qed.
 Check C16_str_unterminated :
-  forall l qo items,
-  is_opener qo -> forallb sitem_ok items = true -> lrest l = qo ++ sitems_text items ->
+  forall l curly qo items,
+  is_opener curly qo -> forallb (sitem_ok curly) items = true -> lrest l = qo ++ sitems_text items ->
   let p' := lpos l + String.length qo + String.length (sitems_text items) in
   lex_next l = (TErr PUntermStr p' (llen l), mklex "" p' (lpos l) (llen l)).
 
 (* a backslash as the last character of the text: "unterminated string" at the backslash *)
 Theorem C16_str_trailing_backslash :
-  forall l qo items,
-  is_opener qo -> forallb sitem_ok items = true -> lrest l = qo ++ sitems_text items ++ "\" ->
+  forall l curly qo items,
+  is_opener curly qo -> forallb (sitem_ok curly) items = true -> lrest l = qo ++ sitems_text items ++ "\" ->
   let p := lpos l + String.length qo + String.length (sitems_text items) in
   lex_next l = (TErr PUntermStr p (llen l), mklex "" (S p) (lpos l) (llen l)).
 Proof. exact lex_next_string_trailing_backslash. Qed.
 Check C16_str_trailing_backslash :
-  forall l qo items,
-  is_opener qo -> forallb sitem_ok items = true -> lrest l = qo ++ sitems_text items ++ "\" ->
+  forall l curly qo items,
+  is_opener curly qo -> forallb (sitem_ok curly) items = true -> lrest l = qo ++ sitems_text items ++ "\" ->
   let p := lpos l + String.length qo + String.length (sitems_text items) in
   lex_next l = (TErr PUntermStr p (llen l), mklex "" (S p) (lpos l) (llen l)).
 
 (* an unknown escape inside a literal: the error token, wherever it stands in the body *)
 Theorem C16_str_literal_unknown_escape :
-  forall l qo items r c2 r2,
-  is_opener qo -> forallb sitem_ok items = true -> lrest l = qo ++ sitems_text items ++ String "\" r ->
+  forall l curly qo items r c2 r2,
+  is_opener curly qo -> forallb (sitem_ok curly) items = true -> lrest l = qo ++ sitems_text items ++ String "\" r ->
   take_char r = Some (c2, r2) -> (forall c, escape_value c <> None -> c2 <> String c "") ->
   let p := lpos l + String.length qo + String.length (sitems_text items) in
   lex_next l = (TErr PEscape p (S p + String.length c2), mklex r2 (S p + String.length c2) (lpos l) (llen l)).
 Proof. exact lex_next_string_bad_escape. Qed.
 Check C16_str_literal_unknown_escape :
-  forall l qo items r c2 r2,
-  is_opener qo -> forallb sitem_ok items = true -> lrest l = qo ++ sitems_text items ++ String "\" r ->
+  forall l curly qo items r c2 r2,
+  is_opener curly qo -> forallb (sitem_ok curly) items = true -> lrest l = qo ++ sitems_text items ++ String "\" r ->
   take_char r = Some (c2, r2) -> (forall c, escape_value c <> None -> c2 <> String c "") ->
   let p := lpos l + String.length qo + String.length (sitems_text items) in
   lex_next l = (TErr PEscape p (S p + String.length c2), mklex r2 (S p + String.length c2) (lpos l) (llen l)).
 
-(* COMPLETENESS: in a valid UTF-8 text, whatever follows an opening quote is a written body followed by
-   one of: a closing quote (C16_str_literal), the end of the text (C16_str_unterminated), a final
+(* COMPLETENESS: in a valid UTF-8 text, whatever follows an opening quote (of either kind: [curly]) is a
+   written body for that kind of literal followed by
+   one of: a closing quote for that kind (C16_str_literal), the end of the text (C16_str_unterminated), a final
    backslash (C16_str_trailing_backslash), an unknown escape (C16_str_literal_unknown_escape) -
    so these four statements describe Lex::next on every string literal *)
 Theorem C16_str_complete :
-  forall s, valid_utf8 s = true ->
-  exists items tl, forallb sitem_ok items = true /\ s = sitems_text items ++ tl /\ str_tail tl.
+  forall curly s, valid_utf8 s = true ->
+  exists items tl, forallb (sitem_ok curly) items = true /\ s = sitems_text items ++ tl /\ str_tail curly tl.
 Proof. exact str_decompose_valid. Qed.
 Check C16_str_complete :
-  forall s, valid_utf8 s = true ->
-  exists items tl, forallb sitem_ok items = true /\ s = sitems_text items ++ tl /\ str_tail tl.
+  forall curly s, valid_utf8 s = true ->
+  exists items tl, forallb (sitem_ok curly) items = true /\ s = sitems_text items ++ tl /\ str_tail curly tl.
 
-(* [str_tail], spelled out *)
+(* [str_tail], spelled out: after a straight opening quote only the straight quote is a closing quote
+   (C16_str_quotes_spec), so a right curly quote is never a tail there - it is an item of the body *)
 Theorem C16_str_tail_spec :
-  forall tl, str_tail tl <->
-  ((exists q rest, is_closer q /\ tl = q ++ rest) \/ tl = "" \/ tl = "\" \/
+  forall curly tl, str_tail curly tl <->
+  ((exists q rest, is_closer curly q /\ tl = q ++ rest) \/ tl = "" \/ tl = "\" \/
    (exists r c2 r2, tl = String "\" r /\ take_char r = Some (c2, r2) /\
                     forall c, escape_value c <> None -> c2 <> String c "")).
 Proof. exact str_tail_spec. Qed.
 Check C16_str_tail_spec :
-  forall tl, str_tail tl <->
-  ((exists q rest, is_closer q /\ tl = q ++ rest) \/ tl = "" \/ tl = "\" \/
+  forall curly tl, str_tail curly tl <->
+  ((exists q rest, is_closer curly q /\ tl = q ++ rest) \/ tl = "" \/ tl = "\" \/
    (exists r c2 r2, tl = String "\" r /\ take_char r = Some (c2, r2) /\
                     forall c, escape_value c <> None -> c2 <> String c "")).
 
@@ -253,13 +359,16 @@ Example C16_ex_print_read_str :
   lex_string """a\""b\\c\n\r\t z~""" = [(TLit (CStr s), 0, 18); (TEnd, 18, 18)].
 Proof. vm_compute. split; reflexivity. Qed.
 
-(* a plain body with a three-byte character; bodies that are not plain *)
+(* a plain body with a three-byte character; bodies that are not plain (the right curly quote only
+   for a curly-opened literal) *)
 Example C16_ex_str_plain :
   let euro := String (ascii_of_N 226) (String (ascii_of_N 130) (String (ascii_of_N 172) "")) in
   let s := "a " ++ euro ++ " b" in
-  valid_utf8 s = true /\ plain_text s = true /\
+  valid_utf8 s = true /\ plain_text false s = true /\ plain_text true s = true /\
   lex_string (dq ++ s ++ dq) = [(TLit (CStr s), 0, 9); (TEnd, 9, 9)] /\
-  plain_text ("a" ++ rdq) = false /\ plain_text "a\b" = false.
+  plain_text true ("a" ++ rdq) = false /\ plain_text false ("a" ++ rdq) = true /\
+  no_backslash_no_quote ("a" ++ rdq ++ ldq) = true /\
+  plain_text false "a\b" = false /\ plain_text true "a\b" = false.
 Proof. vm_compute. repeat split; reflexivity. Qed.
 
 (* curly quotes, a three-byte character (the euro sign E2 82 AC) and a two-byte one in the body *)
@@ -267,7 +376,7 @@ Example C16_ex_str_curly :
   let euro := String (ascii_of_N 226) (String (ascii_of_N 130) (String (ascii_of_N 172) "")) in
   let ecute := String (ascii_of_N 195) (String (ascii_of_N 169) "") in
   let items := [SByte "a"; SE2 (ascii_of_N 130) (ascii_of_N 172); SEsc "n"; SByte (ascii_of_N 195); SByte (ascii_of_N 169)] in
-  forallb sitem_ok items = true /\ sitems_text items = "a" ++ euro ++ "\n" ++ ecute /\
+  forallb (sitem_ok true) items = true /\ sitems_text items = "a" ++ euro ++ "\n" ++ ecute /\
   lex_string (ldq ++ sitems_text items ++ rdq ++ " 1") =
     [(TLit (CStr ("a" ++ euro ++ String (ascii_of_N 10) ecute)), 0, 14); (TWs, 14, 15); (TLit (CInt 1), 15, 16); (TEnd, 16, 16)].
 Proof. vm_compute. repeat split; reflexivity. Qed.
@@ -281,13 +390,29 @@ Example C16_ex_str_errors :
   lex_string """abc\" = [(TErr PUntermStr 4 5, 0, 5)].
 Proof. vm_compute. repeat split; reflexivity. Qed.
 
-(* OBSERVATION: a closing curly quote inside a straight-quoted literal ends the literal, and there is no
-   escape for it - so the text a printer that writes that character verbatim would produce does
-   not read back (the model's printer declines such strings: fmt_str_body = None) *)
+(* a right curly quote inside a straight-quoted literal is part of the value (before the repair of the
+   lexer it ended the literal: the first text gave TErr PExpectWs 0 5), also together with a left one
+   and next to an escape; the backslash still does not escape it; the model's printer renders
+   ASCII only (fmt_str_body = None for this string) - the Rust printer writes it verbatim, which
+   is the first text *)
 Example C16_ex_str_curly_inside :
-  lex_string (dq ++ "a" ++ rdq ++ "b" ++ dq) = [(TErr PExpectWs 0 5, 0, 5)] /\
+  lex_string (dq ++ "a" ++ rdq ++ "b" ++ dq) = [(TLit (CStr ("a" ++ rdq ++ "b")), 0, 7); (TEnd, 7, 7)] /\
+  lex_string (dq ++ rdq ++ ldq ++ rdq ++ "\n" ++ rdq ++ dq) =
+    [(TLit (CStr (rdq ++ ldq ++ rdq ++ String (ascii_of_N 10) rdq)), 0, 16); (TEnd, 16, 16)] /\
   lex_string (dq ++ "a\" ++ rdq ++ "b" ++ dq) = [(TErr PEscape 2 6, 0, 6)] /\
   fmt_str_body ("a" ++ rdq ++ "b") = None.
+Proof. vm_compute. repeat split; reflexivity. Qed.
+
+(* which quote closes which: a curly-opened literal is closed by the right curly quote or by the
+   straight quote; a straight-opened one by the straight quote only - with a right curly quote in
+   its place the string is unterminated; a right curly quote inside a curly-opened literal ends it *)
+Example C16_ex_str_curly_close :
+  lex_string (ldq ++ "abc" ++ rdq) = [(TLit (CStr "abc"), 0, 9); (TEnd, 9, 9)] /\
+  lex_string (ldq ++ "abc" ++ dq) = [(TLit (CStr "abc"), 0, 7); (TEnd, 7, 7)] /\
+  lex_string (dq ++ "abc" ++ rdq) = [(TErr PUntermStr 7 7, 0, 7)] /\
+  lex_string (dq ++ "abc" ++ rdq ++ " 1 " ++ dq) = [(TLit (CStr ("abc" ++ rdq ++ " 1 ")), 0, 11); (TEnd, 11, 11)] /\
+  lex_string (ldq ++ "a" ++ rdq ++ "b" ++ rdq) = [(TErr PExpectWs 0 7, 0, 7)] /\
+  lex_string (ldq ++ "a" ++ rdq ++ " b") = [(TLit (CStr "a"), 0, 7); (TWs, 7, 8); (TWord "b", 8, 9); (TEnd, 9, 9)].
 Proof. vm_compute. repeat split; reflexivity. Qed.
 
 (* ================= 5. integer literals in every radix, with separators ================= *)
